@@ -957,6 +957,7 @@ class TermCanvas(Canvas):
             char_spec = (self.attrspec, self.charset.current, char)
 
         x, y = position
+        chars = min(chars, self.width - x)  # more would only repeat the same result
 
         while chars > 0:
             self.term[y].insert(x, char_spec)
@@ -976,6 +977,7 @@ class TermCanvas(Canvas):
             chars = 1
 
         x, y = position
+        chars = min(chars, self.width - x)  # more would only repeat the same result
 
         while chars > 0:
             self.term[y].pop(x)
@@ -998,6 +1000,7 @@ class TermCanvas(Canvas):
 
         if not self.scrollregion_start <= row <= self.scrollregion_end:
             return  # outside the scrolling region: ignored
+        lines = min(lines, self.scrollregion_end - row + 1)  # more would only repeat the same result
 
         while lines > 0:
             self.term.pop(self.scrollregion_end)
@@ -1020,6 +1023,7 @@ class TermCanvas(Canvas):
 
         if not self.scrollregion_start <= row <= self.scrollregion_end:
             return  # outside the scrolling region: ignored
+        lines = min(lines, self.scrollregion_end - row + 1)  # more would only repeat the same result
 
         while lines > 0:
             self.term.pop(row)
